@@ -405,6 +405,12 @@ pub fn load_known_findings(property: &str) -> BTreeMap<String, (String, String)>
                     out.insert(k.to_string(), (id.clone(), what.clone()));
                 }
             }
+            // compact form of an exact list: every key is `key_prefix` + one of `inputs`
+            if let (Some(prefix), Some(inputs)) = (f.get("key_prefix").and_then(|k| k.as_str()), f.get("inputs").and_then(|k| k.as_array())) {
+                for i in inputs.iter().filter_map(|k| k.as_str()) {
+                    out.insert(format!("{prefix}{i}"), (id.clone(), what.clone()));
+                }
+            }
         }
     }
     out
